@@ -9,7 +9,8 @@
     Q <perm> <types> <prov c|l> [n:T=..] [p:T=..] [t=Type] [f=<filter>]
                                                  | ok <T/name,..|-> / err <kind>  log=.. ft=.. fast=.. tv=..
     A <perm> <types>                             | <granted> <bits>
-    H <q|m> <Type> [n=name] [p=a,b] [f=<filter>] [j]   | <status> <T/name,..|-> jn=.. ft=.. fast=..
+    H <q|m|d|a:action> <Type> [n=name] [p=a,b] [f=<filter>] [j]   | <status> <T/name,..|-> jn=.. ft=.. fast=..
+    G <templates|variables|types|status|console>        | <status> <count>
   Output lines:
     MISMATCH line=<n> case=<k> what=<result|log|grant|access> impl=<...> model=<...>
     SPECFAIL line=<n> case=<k> clause=<name>
@@ -35,7 +36,7 @@ def parseInv (s : String) : Option (List Obj) :=
   if s == "-" then some [] else
   (s.splitOn ",").mapM fun part =>
     match part.splitOn ":" with
-    | [t, n, _] => (typeOfTag t).map fun ty => ({ type := ty, name := n } : Obj)
+    | t :: n :: _ :: _ => (typeOfTag t).map fun ty => ({ type := ty, name := n } : Obj)
     | _ => none
 
 def parseBits (s : String) (n : Nat) : Option (List Bool) :=
@@ -136,7 +137,20 @@ def parseQueryToks : List String → Query → Bool → Option (Query × Bool)
       parseQueryToks rest q true
     else none
 
+/-- the request with the names of its plural lists sorted: requests with equal keys differ only in visit order -/
+def orderKey (pre : List String) : String :=
+  " ".intercalate (pre.map fun tok =>
+    if tok.startsWith "p:" || tok.startsWith "p=" then
+      match tok.splitOn "=" with
+      | [k, v] => k ++ "=" ++ ",".intercalate (sortStrs (splitC v ","))
+      | _ => tok
+    else tok)
+
 structure DSt where
+  /-- outcomes already seen in this case, by `orderKey` -/
+  seenOutcomes : List (String × Except Err (List Obj)) := []
+  orderPairs : Nat := 0
+  orderPairsMixed : Nat := 0     -- ... where the outcome was an error or the permission filter is not null
   inv : List Obj := []
   user : User := []
   caseNo : Nat := 0
@@ -148,6 +162,11 @@ structure DSt where
   nH : Nat := 0
   h200 : Nat := 0
   h404 : Nat := 0
+  hActions : Nat := 0
+  hDeletes : Nat := 0
+  nG : Nat := 0
+  g200 : Nat := 0
+  gCompared : Nat := 0
   hJoinShown : Nat := 0
   hJoinHidden : Nat := 0
   okNonEmpty : Nat := 0
@@ -259,6 +278,18 @@ def handleQ (d : DSt) (n : Nat) (pre post : List String) : IO DSt := do
           IO.println s!"SPECFAIL line={n} case={d.caseNo} clause={cl.name}"
           d := { d with specfails := d.specfails + 1 }
         | none => pure ()
+        -- visit-order independence, on the implementation's observations
+        let key := orderKey pre
+        match d.seenOutcomes.lookup key with
+        | some prev =>
+          d := { d with orderPairs := d.orderPairs + 1 }
+          if !(permissionFilters d.user perm).isEmpty then d := { d with orderPairsMixed := d.orderPairsMixed + 1 }
+          match specOrder prev ires with
+          | some cl =>
+            IO.println s!"SPECFAIL line={n} case={d.caseNo} clause={cl.name}"
+            d := { d with specfails := d.specfails + 1 }
+          | none => pure ()
+        | none => d := { d with seenOutcomes := (key, ires) :: d.seenOutcomes }
         -- histogram (of the implementation's outcome and of the path the query takes)
         d := match ires with
           | .ok [] => { d with okEmpty := d.okEmpty + 1 }
@@ -336,7 +367,9 @@ def hostOf (svc : Obj) : Obj := { type := "Host", name := (svc.name.splitOn "!")
 def handleH (d : DSt) (n : Nat) (pre post : List String) : IO DSt := do
   match pre, post with
   | _ :: verb :: type :: toks, status :: names :: kvs =>
-    let verb? := if verb == "q" then some "query" else if verb == "m" then some "modify" else none
+    let isAction := verb.startsWith "a:"
+    let verb? := if verb == "q" then some "query" else if verb == "m" then some "modify"
+                 else if verb == "d" then some "delete" else if isAction then some (verb.drop 2).toString else none
     let pathName := (kvOf toks "n").map dec
     let plural : List (String × List String) := match kvOf toks "p" with
       | some v => [(type, (splitC v ",").map dec)]
@@ -358,9 +391,11 @@ def handleH (d : DSt) (n : Nat) (pre post : List String) : IO DSt := do
     match verb?, ufilter, parseNat? status, parseObjs names with
     | some verb, some uf, some istatus, some iobjs =>
       let q0 : Query := { plural := plural, filter := uf }
-      let qd := handlerQD verb type
-      let q := handlerQuery type pathName q0
-      let mres := handlerTargets d.user verb type pathName q0 d.inv
+      let qd := if isAction then actionQD verb else handlerQD verb type
+      let q := if isAction then actionQuery type pathName q0 else handlerQuery type pathName q0
+      let mres := (filterTargets d.user qd q d.inv).result
+      let mstatus := if isAction then actionStatus mres else if verb == "delete" then deleteStatusNonApi mres else httpStatus mres
+      let withResults := istatus == 200 || (verb == "delete" && istatus == 500)
       let mut d := { d with steps := d.steps + 1, nH := d.nH + 1,
                             caseHash := mixHash d.caseHash (hash (" ".intercalate pre)) }
       let mjoin : List String := match mres with
@@ -368,7 +403,7 @@ def handleH (d : DSt) (n : Nat) (pre post : List String) : IO DSt := do
             sortStrs ((objs.filter fun o => o.type == "Service" && d.inv.contains (hostOf o)
                                           && accessGranted d.user "objects/query/Host" (hostOf o)).map (·.name))
         | .error _ => []
-      let mshow := s!"{httpStatus mres}:" ++ (match mres with
+      let mshow := s!"{mstatus}:" ++ (match mres with
         | .ok objs => let l := sortStrs (objs.map showObj); if l.isEmpty then "-" else ",".intercalate l
         | .error _ => "-")
       let ishow := s!"{istatus}:{names}"
@@ -379,20 +414,33 @@ def handleH (d : DSt) (n : Nat) (pre post : List String) : IO DSt := do
         IO.println s!"MISMATCH line={n} case={d.caseNo} what=join impl={jn} model={",".intercalate mjoin}"
         d := { d with mismatches := d.mismatches + 1 }
       -- the specification on the implementation's observation; a 404 does not say which error it was
-      let obs : Obs := { result := if istatus == 200 then .ok iobjs else .error .permission, log := none }
-      let bad := if istatus == 200 || istatus == 404 then specQuery d.user qd q d.inv obs else none
+      let obs : Obs := { result := if withResults then .ok iobjs else .error .permission, log := none }
+      let bad := if withResults || istatus == 404 then specQuery d.user qd q d.inv obs else none
       match bad with
       | some cl =>
         IO.println s!"SPECFAIL line={n} case={d.caseNo} clause={cl.name}"
         d := { d with specfails := d.specfails + 1 }
       | none => pure ()
+      if withResults || istatus == 404 then
+        let key := orderKey pre
+        match d.seenOutcomes.lookup key with
+        | some prev =>
+          d := { d with orderPairs := d.orderPairs + 1 }
+          match specOrder prev obs.result with
+          | some cl =>
+            IO.println s!"SPECFAIL line={n} case={d.caseNo} clause={cl.name}"
+            d := { d with specfails := d.specfails + 1 }
+          | none => pure ()
+        | none => d := { d with seenOutcomes := (key, obs.result) :: d.seenOutcomes }
       for sn in splitC (if jn == "-" then "" else jn) "," do
         match specAccess d.user "objects/query/Host" (hostOf { type := "Service", name := sn }) true with
         | some cl =>
           IO.println s!"SPECFAIL line={n} case={d.caseNo} clause={cl.name}"
           d := { d with specfails := d.specfails + 1 }
         | none => pure ()
-      if istatus == 200 then d := { d with h200 := d.h200 + 1 } else d := { d with h404 := d.h404 + 1 }
+      if withResults then d := { d with h200 := d.h200 + 1 } else d := { d with h404 := d.h404 + 1 }
+      if isAction then d := { d with hActions := d.hActions + 1 }
+      if verb == "delete" then d := { d with hDeletes := d.hDeletes + 1 }
       if wantJoin then
         match mres with
         | .ok objs =>
@@ -402,6 +450,29 @@ def handleH (d : DSt) (n : Nat) (pre post : List String) : IO DSt := do
         | .error _ => pure ()
       return d
     | _, _, _, _ => bad d n
+  | _, _ => bad d n
+
+def handleG (d : DSt) (n : Nat) (pre post : List String) : IO DSt := do
+  match pre, post with
+  | [_, kind], status :: _ =>
+    match handlerPermission kind, parseNat? status with
+    | some perm, some istatus =>
+      let mut d := { d with steps := d.steps + 1, nG := d.nG + 1, g200 := d.g200 + (if istatus == 200 then 1 else 0) }
+      -- with a filtered matching entry the status depends on evaluating the DSL on targets this model does
+      -- not describe (dictionaries, types); the console handler ignores filters altogether
+      let comparable := kind == "console" || (permissionFilters d.user perm).isEmpty || !hasPermission d.user perm
+      if comparable then
+        d := { d with gCompared := d.gCompared + 1 }
+        if istatus != grantStatus d.user perm then
+          IO.println s!"MISMATCH line={n} case={d.caseNo} what=handler impl={istatus} model={grantStatus d.user perm}"
+          d := { d with mismatches := d.mismatches + 1 }
+      match specGrant d.user perm (istatus == 200) with
+      | some cl =>
+        IO.println s!"SPECFAIL line={n} case={d.caseNo} clause={cl.name}"
+        d := { d with specfails := d.specfails + 1 }
+      | none => pure ()
+      return d
+    | _, _ => bad d n
   | _, _ => bad d n
 
 def handle (d : DSt) (n : Nat) (line : String) : IO DSt := do
@@ -414,18 +485,19 @@ def handle (d : DSt) (n : Nat) (line : String) : IO DSt := do
     match parseInv inv with
     | some objs =>
       let d := closeCase d
-      return { d with inv := objs, user := [], caseNo := d.caseNo + 1, caseHash := mixHash 7 (hash inv) }
+      return { d with inv := objs, user := [], caseNo := d.caseNo + 1, caseHash := mixHash 7 (hash inv), seenOutcomes := [] }
     | none => bad d n
   | "P" :: _ =>
-    let d := { d with caseHash := mixHash d.caseHash (hash (" ".intercalate pre)) }
+    let d := { d with caseHash := mixHash d.caseHash (hash (" ".intercalate pre)), seenOutcomes := [] }
     handleP d n pre post
   | "Q" :: _ => handleQ d n pre post
   | "A" :: _ => handleA d n pre post
   | "H" :: _ => handleH d n pre post
+  | "G" :: _ => handleG d n pre post
   | w :: _ => if w.startsWith "#" then return d else bad d n
 
 def main : IO Unit := do
   let stdin ← IO.getStdin
   let d ← foldLines stdin handle ({} : DSt)
   let d := closeCase d
-  IO.println s!"STATS cases={d.caseNo} steps={d.steps} matches={d.nM} matches_granted={d.nMgranted} queries={d.nQ} access={d.nA} http={d.nH} http_200={d.h200} http_404={d.h404} join_shown={d.hJoinShown} join_hidden={d.hJoinHidden} ok_nonempty={d.okNonEmpty} ok_empty={d.okEmpty} err_perm={d.errPerm} err_denied={d.errDenied} err_notfound={d.errNotFound} err_type={d.errType} err_other={d.errOther} path_single={d.pathSingle} path_plural={d.pathPlural} path_filter_eval={d.pathFilterEval} path_fast={d.pathFast} path_all={d.pathAll} perm_filtered={d.permFiltered} multi_match={d.multiMatch} mixed_match={d.mixedMatch} filtered_out={d.filteredOut} nontrivial={d.nontrivial} mismatches={d.mismatches} specfails={d.specfails} badlines={d.badlines}"
+  IO.println s!"STATS cases={d.caseNo} steps={d.steps} matches={d.nM} matches_granted={d.nMgranted} queries={d.nQ} access={d.nA} http={d.nH} http_200={d.h200} http_404={d.h404} http_actions={d.hActions} http_deletes={d.hDeletes} handlers={d.nG} handlers_200={d.g200} handlers_compared={d.gCompared} join_shown={d.hJoinShown} join_hidden={d.hJoinHidden} order_pairs={d.orderPairs} order_pairs_filtered={d.orderPairsMixed} ok_nonempty={d.okNonEmpty} ok_empty={d.okEmpty} err_perm={d.errPerm} err_denied={d.errDenied} err_notfound={d.errNotFound} err_type={d.errType} err_other={d.errOther} path_single={d.pathSingle} path_plural={d.pathPlural} path_filter_eval={d.pathFilterEval} path_fast={d.pathFast} path_all={d.pathAll} perm_filtered={d.permFiltered} multi_match={d.multiMatch} mixed_match={d.mixedMatch} filtered_out={d.filteredOut} nontrivial={d.nontrivial} mismatches={d.mismatches} specfails={d.specfails} badlines={d.badlines}"
